@@ -84,7 +84,7 @@ def h_jsep(ctx, depth, media, pre="none"):
         log = []
         closing = []
         pending = {"a": [], "b": []}  # setLocalDescription calls started but not yet awaited
-        if pre == "round":
+        if pre in ("round", "round+swapped-offer"):
             # scripted prefix: one completed offer/answer round a -> b; exploration starts from there
             # (the descriptions of that round stay available as stale arguments)
             a, b = pcs["a"], pcs["b"]
@@ -95,6 +95,15 @@ def h_jsep(ctx, depth, media, pre="none"):
             run(b.setLocalDescription(made["b"]["answer"]))
             run(a.setRemoteDescription(made["b"]["answer"]))
             ctx.check(a.signalingState == "stable" and b.signalingState == "stable", "round-ends-stable")
+            if pre == "round+swapped-offer":
+                # ... then the former answerer offers and the former offerer has answered; the
+                # exploration starts with b still to apply that answer
+                run(b.setLocalDescription(None))
+                made["b"]["offer"] = b.localDescription
+                run(a.setRemoteDescription(b.localDescription))
+                run(a.setLocalDescription(None))
+                made["a"]["answer"] = a.localDescription
+                model["b"] = "have-local-offer"
         for step in range(depth):
             who = ctx.choice("who%d" % step, ["a", "b"])
             other = "b" if who == "a" else "a"
@@ -178,11 +187,12 @@ def h_jsep(ctx, depth, media, pre="none"):
                     if call.endswith("defective"):
                         defect = ctx.choice("defect%d" % step, DEFECTS)
                         if defect == "bad-type":
-                            try:
-                                RTCSessionDescription(sdp=text, type="bogus")
-                                ctx.fail("bogus-description-type-accepted")
-                            except ValueError:
-                                pass
+                            for bad in ("bogus", "", "off", "answ", "roll", "Offer", "offeranswer", " answer"):
+                                try:
+                                    RTCSessionDescription(sdp=text, type=bad)
+                                    ctx.fail("bogus-description-type-accepted", repr(bad))
+                                except ValueError:
+                                    pass
                             log.append((who, call, defect, "ValueError"))
                             continue
                         if defect in ("mismatched-mid", "extra-media") and typ != "answer":
@@ -298,7 +308,8 @@ HARNESSES = {
         "jsep",
         h_jsep,
         lambda tier: [{"depth": d, "media": m} for m in ("data", "both") for d in ((2, 3) if tier == "quick" else (2, 3, 4))]
-        + [{"depth": d, "media": m, "pre": "round"} for m in ("both", "data") for d in ((2,) if tier == "quick" else (2, 3))],
+        + [{"depth": d, "media": m, "pre": "round"} for m in ("both", "data") for d in ((2,) if tier == "quick" else (2, 3))]
+        + [{"depth": d, "media": "both", "pre": "round+swapped-offer"} for d in ((1, 2) if tier == "quick" else (1, 2, 3))],
         style="BMC over API call sequences (real objects, real event loop)",
         bounds="every sequence of 2..3 (quick) / 2..4 calls over {createOffer, createAnswer, setLocal(offer|answer|implicit), setRemote(offer|answer|defective with 9 kinds of alteration (8 defects and one legal variation)), close, close / setLocalDescription started but not yet awaited} applied to either peer of a pair (offerer with a data channel, or data channel + audio transceiver), from the initial state and (2 / 2..3 calls) from the state after one completed offer/answer round",
         encoded=ENC,
